@@ -216,13 +216,13 @@ VERSIONS = ["21", "7.0", "2.1.3", "Rawhide"]
 TIMESTAMPS = [1, 123456, 2 ** 33]
 PLATFORM_POOL = ["xen", "efi", "ppc64le"]
 OPTION_NAMES = ["kernel", "Mixed.Case", "dir/with space.img"]
-PATH_VALUES = ["Some/Packages", "", "."]
+PATH_VALUES = ["Some/Packages", "", ".", "../../appstream/x86_64/", "./Packages/"]
 DIGESTS = {"md5": "1" * 32, "sha1": "2" * 40, "sha256": "3" * 64, "sha512": "4" * 128}
 
 
 def edits(spec, seed=0, max_depth=3, with_float=False, with_main=False):
     out = []
-    for f, alpha in (("name", TEXTS), ("short", TEXTS), ("version", VERSIONS)):
+    for f, alpha in (("name", TEXTS), ("short", TEXTS + [""]), ("version", VERSIONS)):
         for val in alpha:
             if spec["release"][f] != val:
                 out.append(["rel", f, val])
@@ -230,7 +230,7 @@ def edits(spec, seed=0, max_depth=3, with_float=False, with_main=False):
         out.append(["layered", {"name": "Base OS", "short": "BOS", "version": "7"}])
     else:
         out.append(["layered", None])
-        for f, alpha in (("name", TEXTS), ("short", TEXTS), ("version", VERSIONS)):
+        for f, alpha in (("name", TEXTS), ("short", TEXTS + [""]), ("version", VERSIONS)):
             for val in alpha:
                 if spec["base_product"][f] != val:
                     out.append(["bp", f, val])
